@@ -65,6 +65,10 @@ PASSPHRASES = {
     "ideographic-space": "ぱす　わーど　ガバ",
     "astral": "\U0001f511 key \U00020000",
     "upper": "MiXeD CaSe ÉCOLE",
+    # code points whose case folding is not their lower case (ß/ẞ -> ss, final sigma, U+03F2, U+037A, Cherokee) and whose
+    # lower case is special (dotted capital I, titlecase digraphs, capital sigma): a caseless comparison is not Electrum's lower()
+    "casefold-differs": "Straße GROẞ ὀδυσσεύς ς Ϲϲ ͺ Ꮿᏸ",
+    "special-lower": "İstanbul ǅ ǈ ᾈ ΣΑΣ",
 }
 
 MECH_FUNCS = {
